@@ -332,3 +332,49 @@ func vAny(name string) any {
 	}
 	return wamp.URI(vString(name, 2))
 }
+
+// vRemotePeer is a router-side peer that is NOT local (like a websocket or
+// rawsocket peer): the router may share message objects between such peers.
+type vRemotePeer struct {
+	rd chan wamp.Message
+	wr chan wamp.Message
+}
+
+func (p *vRemotePeer) IsLocal() bool               { return false }
+func (p *vRemotePeer) Recv() <-chan wamp.Message   { return p.rd }
+func (p *vRemotePeer) Send() chan<- wamp.Message   { return p.wr }
+func (p *vRemotePeer) Close()                      { close(p.wr) }
+
+type vClientEnd struct{ rd chan wamp.Message }
+
+func (p *vClientEnd) IsLocal() bool             { return false }
+func (p *vClientEnd) Recv() <-chan wamp.Message { return p.rd }
+func (p *vClientEnd) Send() chan<- wamp.Message { return nil }
+func (p *vClientEnd) Close()                    {}
+
+// vNewSessKind creates a session over a local or a remote-style peer.
+func vNewSessKind(id wamp.ID, details wamp.Dict, greet wamp.Dict, qsize int, local bool) *vSess {
+	if local {
+		return vNewSess(id, details, greet, qsize)
+	}
+	if details == nil {
+		details = wamp.Dict{}
+	}
+	rp := &vRemotePeer{rd: make(chan wamp.Message), wr: make(chan wamp.Message, qsize)}
+	return &vSess{s: wamp.NewSession(rp, id, details, greet), client: &vClientEnd{rd: rp.wr}}
+}
+
+func vDictEqual(a, b wamp.Dict) bool {
+	if len(a) != len(b) {
+		return false
+	}
+	ok := true
+	for k, v := range a {
+		w, has := b[k]
+		if !has {
+			return false
+		}
+		ok = vAnd(ok, v == w)
+	}
+	return ok
+}
